@@ -1061,10 +1061,26 @@ func (c *Conn) Write(b []byte) (int, error) {
 		}
 	}
 
-	if err := c.Handshake(); err != nil {
-		return 0, err
-	}
+	for {
+		if err := c.Handshake(); err != nil {
+			return 0, err
+		}
 
+		// A renegotiation (run by a concurrent Read) can begin after
+		// Handshake has returned: writeApplicationData then writes
+		// nothing and Handshake waits for the renegotiation to finish.
+		n, err := c.writeApplicationData(b)
+		if err != errHandshakeInProgress {
+			return n, err
+		}
+	}
+}
+
+var errHandshakeInProgress = errors.New("tls: handshake in progress")
+
+// writeApplicationData writes b as application data records. If a handshake
+// is in progress it writes nothing and returns errHandshakeInProgress.
+func (c *Conn) writeApplicationData(b []byte) (int, error) {
 	c.out.Lock()
 	defer c.out.Unlock()
 
@@ -1073,7 +1089,7 @@ func (c *Conn) Write(b []byte) (int, error) {
 	}
 
 	if !c.handshakeComplete() {
-		return 0, alertInternalError
+		return 0, errHandshakeInProgress
 	}
 
 	if c.closeNotifySent {
